@@ -164,6 +164,9 @@ def check_add_measures(ctx, part, before, w):
         if (_F(4 * b * sigmaps.div_at(d, s), bt)).denominator != 1:
             ctx.ambiguous()              # the bar is not a whole number of divisions: where it is cut is don't-care
             continue
+        if beats > b and e - 1 > s and bar_beats(model, s, e - 1) < b:
+            ctx.ambiguous()              # the exact end of the bar lies between two positions (division change inside the bar)
+            continue
         if beats > b:
             ctx.violation("add_measures-measure-longer-than-bar", f"added measure [{s},{e}) lasts {beats} beats under {b}/{bt}", w)
             return
